@@ -10,8 +10,8 @@ Arguments flat : simpl never.
 
 (* equality on everything the three handlers and the dispatcher never change *)
 Definition nf (s : st) : st :=
-  s <| buf := [] |> <| wout := [] |> <| ws := false |> <| sinline := [] |> <| par := false |> <| diags := [] |> <| panicked := None |>
-    <| macro := [] |> <| args := [] |> <| line := 0%nat |> <| text := [] |> <| has_cur := false |> <| prev := [] |> <| ids := [] |>
+  s <| buf := [] |> <| wout := [] |> <| ws := false |> <| sinline := [] |> <| par := false |> <| diags := [] |>
+    <| macro := [] |> <| args := [] |> <| line := 0%nat |> <| text := [] |> <| prev := [] |> <| ids := [] |>
     <| elided := false |> <| quiet := false |>.
 Definition eqf (a b : st) : Prop := nf a = nf b.
 Infix "~=" := eqf (at level 70).
@@ -30,14 +30,13 @@ Lemma set_ws_eqf b s : s <| ws := b |> ~= s. Proof. destruct s; reflexivity. Qed
 Lemma upd_buf_eqf f s : s <| buf ::= f |> ~= s. Proof. destruct s; reflexivity. Qed.
 Lemma upd_sinline_eqf f s : s <| sinline ::= f |> ~= s. Proof. destruct s; reflexivity. Qed.
 Lemma set_prev_eqf b s : s <| prev := b |> ~= s. Proof. destruct s; reflexivity. Qed.
-Lemma set_panic_eqf m s : set_panic m s ~= s. Proof. unfold set_panic. destruct (panicked s); [reflexivity|]. destruct s; reflexivity. Qed.
 Lemma fmt_eqf a b : a ~= b -> fmt a = fmt b. Proof. apply eqf_get. intro; reflexivity. Qed.
 Lemma mtags_eqf a b : a ~= b -> mtags a = mtags b. Proof. apply eqf_get. intro; reflexivity. Qed.
 Lemma after_handler_eqf n s : after_handler n s ~= s.
 Proof. unfold after_handler. destruct (elided s); [destruct s; reflexivity|]. destruct (is_control_name n); [reflexivity|apply set_prev_eqf]. Qed.
-Lemma push_inline_eqf tag id r s : push_inline tag id r s ~= s.
-Proof. unfold push_inline, mk_scope. destruct (cloc s) as [[[l n] f]|]; [apply upd_sinline_eqf|].
-  eapply eqf_trans; [apply upd_sinline_eqf|]. destruct (has_cur s); [reflexivity|apply set_panic_eqf]. Qed.
+Lemma push_inline_eqf tag id r s : has_cur s = true -> push_inline tag id r s ~= s.
+Proof. intro Hc. unfold push_inline, mk_scope. destruct (cloc s) as [[[l n] f]|]; [apply upd_sinline_eqf|].
+  rewrite Hc. apply upd_sinline_eqf. Qed.
 
 Lemma begin_paragraph_eqf s : fmt s = FX -> begin_paragraph s ~= s.
 Proof. intro Hf. unfold begin_paragraph. rewrite Hf. apply w_eqf. Qed.
@@ -71,8 +70,8 @@ Proof. unfold store_id. set (s1 := if has_key id (ids s) then _ else s).
   { unfold s1. destruct (has_key id (ids s)); [|apply eqf_refl]. unfold err. cbn. destruct s; reflexivity. }
   eapply eqf_trans; [|exact E]. destruct s1; reflexivity. Qed.
 
-Lemma macro_bm_eqf s : fmt s = FX -> markup_ok (mtags s) -> macro_bm s ~= s.
-Proof. intros Hf Hm. unfold macro_bm.
+Lemma macro_bm_eqf s : fmt s = FX -> markup_ok (mtags s) -> has_cur s = true -> macro_bm s ~= s.
+Proof. intros Hf Hm Hc. unfold macro_bm.
   pose proof (parse_opts_eqd specOptBm (args s) s) as E1. destruct (parse_opts specOptBm (args s) s) as [o s1]. cbn [snd] in E1.
   pose proof (opt_render_eqd "id" o s1) as E2. pose proof (opt_render_escaped "id" o s1) as Hid.
   destruct (opt_render "id" o s1) as [id s2]. cbn [fst snd] in *.
@@ -90,7 +89,8 @@ Proof. intros Hf Hm. unfold macro_bm.
     pose proof (inlines_text_eqd t s3) as H. destruct (inlines_text t s3) as [tg s']. cbn [snd] in *.
     destruct (has_key tg (mtags s')); [exact H|]. eapply eqd_trans; [apply err_eqd|exact H]. }
   destruct r4 as [tag s4]. cbn [snd] in E4.
-  assert (F4' : push_inline tag id (flag "r" o) s4 ~= s) by (eapply eqf_trans; [apply push_inline_eqf|]; eapply eqf_trans; [apply eqd_eqf; exact E4|exact F3]).
+  assert (F4 : s4 ~= s) by (eapply eqf_trans; [apply eqd_eqf; exact E4|exact F3]).
+  assert (F4' : push_inline tag id (flag "r" o) s4 ~= s) by (eapply eqf_trans; [apply push_inline_eqf; rewrite (eqf_get has_cur _ _ (fun _ => eq_refl) F4); exact Hc|exact F4]).
   set (s4' := push_inline tag id (flag "r" o) s4) in *. clearbody s4'.
   unfold begin_markup_block. rewrite (fmt_eqf _ _ F4'), Hf.
   destruct (Hm tag id Hid) as [[x [Ex Hx]] _]. rewrite !Ex by (apply (mtags_eqf _ _ F4')).
@@ -208,15 +208,16 @@ Proof. intros Hf Hm Ha Hv. unfold macro_p. destruct (process s); cbn [negb]; [|a
 Record Side (s : st) : Prop := {
   sd_mk : markup_ok (mtags s); sd_inl : inl s = false; sd_asis : asis s = false;
   sd_if : ifdepth s = 0%nat; sd_udef : udef s = None; sd_um : umacros s = []; sd_bf : bf s = None;
-  sd_dt : dtags s = []; sd_vs : verse s = false; sd_fmt : fmt s = FX; sd_mode : mode s = 0%nat
+  sd_dt : dtags s = []; sd_vs : verse s = false; sd_fmt : fmt s = FX; sd_mode : mode s = 0%nat;
+  sd_np : panicked s = None
 }.
 Lemma Side_eqf a b : a ~= b -> Side b -> Side a.
-Proof. intros H [A1 A3 A4 A5 A6 A7 A8 A9 A10 A11 A12].
+Proof. intros H [A1 A3 A4 A5 A6 A7 A8 A9 A10 A11 A12 A13].
   split; [rewrite (eqf_get mtags _ _ (fun _ => eq_refl) H)|rewrite (eqf_get inl _ _ (fun _ => eq_refl) H)
          |rewrite (eqf_get asis _ _ (fun _ => eq_refl) H)|rewrite (eqf_get ifdepth _ _ (fun _ => eq_refl) H)
          |rewrite (eqf_get udef _ _ (fun _ => eq_refl) H)|rewrite (eqf_get umacros _ _ (fun _ => eq_refl) H)
          |rewrite (eqf_get bf _ _ (fun _ => eq_refl) H)|rewrite (eqf_get dtags _ _ (fun _ => eq_refl) H)
-         |rewrite (eqf_get verse _ _ (fun _ => eq_refl) H)|rewrite (fmt_eqf _ _ H)|rewrite (eqf_get mode _ _ (fun _ => eq_refl) H)]; assumption. Qed.
+         |rewrite (eqf_get verse _ _ (fun _ => eq_refl) H)|rewrite (fmt_eqf _ _ H)|rewrite (eqf_get mode _ _ (fun _ => eq_refl) H)|rewrite (eqf_get panicked _ _ (fun _ => eq_refl) H)]; assumption. Qed.
 Definition is_bd (sc : scope) : Prop := sc_macro sc = R "Bd".
 Definition P (p : bool) (s : st) : Prop := Side s /\ Forall is_bd (sblock s) /\ process s = p /\ (p = true -> Inv s).
 Definition in_frag (b : block) : Prop :=
@@ -329,6 +330,21 @@ Proof. intros (HS & Hsb & Hpr & HI) Hsi. specialize (HI eq_refl). cbv zeta. unfo
   - rewrite (fmt_eqf _ _ F2). exact (sd_fmt _ HS).
 Qed.
 
+Lemma close_inline_loop_eqf cur : forall n s, fmt s = FX -> markup_ok (mtags s) -> close_inline_loop n cur s ~= s.
+Proof. induction n as [|n IH]; intros s Hf Hm; [apply eqf_refl|]. cbn [close_inline_loop]. destruct (top (sinline s)) as [sc|]; [|apply eqf_refl].
+  set (s2 := warn_unclosed sc (s <| macro := cur |>) <| macro := R "Em" |> <| args := tag_args (sc_tag sc) |>).
+  assert (F2 : s2 <| quiet := true |> ~= s).
+  { eapply eqf_trans; [apply set_quiet_eqf|]. unfold s2. eapply eqf_trans; [apply set_args_eqf|]. eapply eqf_trans; [apply set_macro_eqf|].
+    eapply eqf_trans; [apply eqd_eqf, err_eqd|apply set_macro_eqf]. }
+  destruct (macro_em_eqf (s2 <| quiet := true |>) ltac:(rewrite (fmt_eqf _ _ F2); exact Hf) ltac:(rewrite (mtags_eqf _ _ F2); exact Hm)) as [Fem _].
+  set (s3' := macro_em (s2 <| quiet := true |>) <| quiet := quiet s2 |> <| args := [] |>).
+  assert (F3 : s3' ~= s) by (unfold s3'; eapply eqf_trans; [apply set_args_eqf|]; eapply eqf_trans; [apply set_quiet_eqf|]; eapply eqf_trans; [exact Fem|exact F2]).
+  eapply eqf_trans; [apply IH; [rewrite (fmt_eqf _ _ F3); exact Hf|rewrite (mtags_eqf _ _ F3); exact Hm]|exact F3]. Qed.
+Lemma close_unclosed_inline_eqf s : fmt s = FX -> markup_ok (mtags s) -> close_unclosed_inline s ~= s.
+Proof. intros Hf Hm. unfold close_unclosed_inline. destruct (sinline s) as [|x l]; [apply eqf_refl|].
+  eapply eqf_trans; [apply set_args_eqf|]. eapply eqf_trans; [apply set_macro_eqf|].
+  eapply eqf_trans; [apply close_inline_loop_eqf; [exact Hf|exact Hm]|apply set_args_eqf]. Qed.
+
 (* ---------- display blocks ---------- *)
 Lemma P_eqd p a b : a ~~ b -> P p b -> P p a.
 Proof. intros E (HS & Hsb & Hpr & HI). split; [apply (Side_eqf _ _ (eqd_eqf _ _ E) HS)|].
@@ -343,17 +359,15 @@ Proof. intros [t ->] stk. cbn [pairs_attrs app]. unfold idattr. destruct (html_e
   change (R "<div" ++ R " id=""" ++ html_escape t ++ R """" ++ R ">" ++ NLs) with (R "<div id=""" ++ (html_escape t ++ (R """" ++ R ">" ++ NLs))).
   rewrite run_app. change (run (R "<div id=""") (Txt, stk)) with (ORest (R "div") false, stk).
   rewrite run_app, run_rest by apply html_escape_no_gt. reflexivity. Qed.
-Lemma push_block_spec m tag id r s : exists sc s', push_block m tag id r s = s' <| sblock ::= fun l => l ++ [sc] |> /\ sc_macro sc = runes m /\ sc_tag sc = tag /\ s' ~= s /\ obs s' = obs s.
-Proof. unfold push_block, mk_scope. destruct (cloc s) as [[[l n] f]|].
-  - eexists _, s. repeat split.
-  - destruct (has_cur s); eexists _, _; repeat split. apply set_panic_eqf. apply set_panic_obs. Qed.
+Lemma push_block_spec m tag id r s : has_cur s = true -> exists sc, push_block m tag id r s = s <| sblock ::= fun l => l ++ [sc] |> /\ sc_macro sc = runes m /\ sc_tag sc = tag.
+Proof. intro Hc. unfold push_block, mk_scope. destruct (cloc s) as [[[l n] f]|]; [|rewrite Hc]; eexists; repeat split. Qed.
 Lemma Forall_pop {A} (Q : A -> Prop) l : Forall Q l -> Forall Q (pop l).
 Proof. unfold pop. induction 1 as [|x l Hx Hl IH]; [constructor|]. destruct l as [|y r]; [constructor|]. change (removelast (x :: y :: r)) with (x :: removelast (y :: r)). constructor; assumption. Qed.
 Lemma Side_set_sblock f s : Side s -> Side (s <| sblock ::= f |>).
-Proof. intros [A1 A3 A4 A5 A6 A7 A8 A9 A10 A11 A12]. split; assumption. Qed.
+Proof. intros [A1 A3 A4 A5 A6 A7 A8 A9 A10 A11 A12 A13]. split; assumption. Qed.
 
-Lemma macro_bd_P p s : P p s -> P p (macro_bd s).
-Proof. intros HP. pose proof HP as (HS & Hsb & Hpr & HI). unfold macro_bd. rewrite (scope_verse_bd _ Hsb).
+Lemma macro_bd_P p s : P p s -> has_cur s = true -> P p (macro_bd s).
+Proof. intros HP Hc. pose proof HP as (HS & Hsb & Hpr & HI). unfold macro_bd. rewrite (scope_verse_bd _ Hsb).
   pose proof (parse_opts_eqd specOptBd (args s) s) as E1. destruct (parse_opts specOptBd (args s) s) as [o s1]. cbn [snd] in E1.
   pose proof (opt_render_eqd "id" o s1) as E2. pose proof (opt_render_escaped "id" o s1) as Hid.
   destruct (opt_render "id" o s1) as [id s2]. cbn [fst snd] in *.
@@ -367,6 +381,9 @@ Proof. intros HP. pose proof HP as (HS & Hsb & Hpr & HI). unfold macro_bd. rewri
   { unfold useless. assert (E3' : s3 ~~ s2) by (unfold s3; destruct (contains_space id); [apply err_eqd|reflexivity]).
     destruct (po_args o); [exact E3'|]. eapply eqd_trans; [apply err_eqd|exact E3']. }
   destruct (close_unclosed_inline_P _ (P_eqd _ _ _ E3 HP2)) as [HP4 Hsi4].
+  assert (Hc4 : has_cur (close_unclosed_inline (useless o s3)) = true).
+  { pose proof (P_eqd _ _ _ E3 HP2) as (HSu & _). rewrite (eqf_get has_cur _ _ (fun _ => eq_refl) (close_unclosed_inline_eqf _ (sd_fmt _ HSu) (sd_mk _ HSu))).
+    rewrite (eqd_get has_cur _ _ (fun _ => eq_refl) E3), (eqd_get has_cur _ _ (fun _ => eq_refl) E). exact Hc. }
   set (s4 := close_unclosed_inline (useless o s3)) in *. clearbody s4.
   pose proof (opt_render_eqd "t" o s4) as E5. destruct (opt_render "t" o s4) as [tag s5]. cbn [snd] in E5.
   pose proof (P_eqd _ _ _ E5 HP4) as HP5.
@@ -374,8 +391,10 @@ Proof. intros HP. pose proof HP as (HS & Hsb & Hpr & HI). unfold macro_bd. rewri
   assert (Hdc : dtag_cmd tag s5 = []) by (unfold dtag_cmd; rewrite (sd_dt _ (proj1 HP5)); reflexivity). rewrite Hdc.
   destruct (end_par_P s5 HP5 Hsi5) as (HP6 & Hp6 & Hsi6 & F6). cbv zeta in HP6, Hp6, Hsi6, F6.
   set (s6 := end_par PNormal s5) in *. clearbody s6.
-  destruct (push_block_spec "Bd" tag id (flag "r" o) s6) as (sc & s6' & Epb & Emac & Etag & F6' & O6'). rewrite Epb.
+  assert (Hc6 : has_cur s6 = true) by (rewrite (eqf_get has_cur _ _ (fun _ => eq_refl) F6), (eqd_get has_cur _ _ (fun _ => eq_refl) E5); exact Hc4).
+  destruct (push_block_spec "Bd" tag id (flag "r" o) s6 Hc6) as (sc & Epb & Emac & Etag). rewrite Epb.
   destruct HP6 as (HS6 & Hsb6 & Hpr6 & HI6). specialize (HI6 eq_refl).
+  set (s6' := s6). assert (O6' : obs s6' = obs s6) by reflexivity. assert (F6' : s6' ~= s6) by apply eqf_refl.
   pose proof (Side_eqf _ _ F6' HS6) as HS6'.
   pose proof (Inv_obs _ _ O6' HI6) as HI6'.
   assert (Hsb6' : sblock s6' = sblock s6) by (apply (eqf_get sblock _ _ (fun _ => eq_refl) F6')).
@@ -541,11 +560,11 @@ Proof. intros HP. pose proof HP as (HS & Hsb & Hpr & HI). unfold macro_ed. destr
   - rewrite Inv.fmt_w. exact (sd_fmt _ HS7).
 Qed.
 
-Lemma P_set_regs p b s : P p s -> P p (set_regs b s).
-Proof. intros (HS & Hsb & Hpr & HI).
-  assert (F0 : set_regs b s ~= s) by (unfold set_regs; destruct b; destruct s; reflexivity).
-  split; [apply (Side_eqf _ _ F0 HS)|]. split; [rewrite (eqf_get sblock _ _ (fun _ => eq_refl) F0); exact Hsb|].
-  split; [rewrite (eqf_get process _ _ (fun _ => eq_refl) F0); exact Hpr|].
+Lemma Side_set_regs b s : Side s -> Side (set_regs b s).
+Proof. intros [A1 A3 A4 A5 A6 A7 A8 A9 A10 A11 A12 A13]. destruct b; split; assumption. Qed.
+Lemma P_set_regs p b s : P p s -> P p (set_regs b s) /\ has_cur (set_regs b s) = true.
+Proof. intros (HS & Hsb & Hpr & HI). split; [|destruct b; reflexivity].
+  split; [apply Side_set_regs; exact HS|]. split; [destruct b; exact Hsb|]. split; [destruct b; exact Hpr|].
   intro Hp. apply (Inv_regs s); [..|exact (HI Hp)]; unfold set_regs; destruct b; reflexivity. Qed.
 Lemma P_after_handler p n s : P p s -> P p (after_handler n s).
 Proof. intros (HS & Hsb & Hpr & HI). pose proof (after_handler_eqf n s) as F.
@@ -555,64 +574,58 @@ Proof. intros (HS & Hsb & Hpr & HI). pose proof (after_handler_eqf n s) as F.
 
 (* BLOCKS4-HERE *)
 Lemma step_frag pb p b c s : in_frag b -> P p s -> P p (snd (step pb b (c, s))).
-Proof. intros Hb (HS & Hsb & Hpr & HI). unfold step. cbv zeta.
-  set (s0 := set_regs b s).
-  assert (F0 : s0 ~= s) by (unfold s0, set_regs; destruct b; destruct s; reflexivity).
-  assert (HI0 : p = true -> Inv s0) by (intro Hp; apply (Inv_regs s); [..|exact (HI Hp)]; unfold s0, set_regs; destruct b; reflexivity).
-  assert (Hpr0 : process s0 = p) by (rewrite (eqf_get process _ _ (fun _ => eq_refl) F0); exact Hpr).
-  pose proof (Side_eqf _ _ F0 HS) as HS0. destruct HS0 as [A1 A3 A4 A5 A6 A7 A8 A9 A10 A11 A12].
+Proof. intros Hb HP. unfold step. cbv zeta.
+  destruct (P_set_regs p b s HP) as [HP0 Hc0]. clear HP.
+  set (s0 := set_regs b s) in *.
+  pose proof HP0 as (HS & Hsb & Hpr & HI). pose proof HS as HS0. pose proof Hsb as Hsb0. pose proof Hpr as Hpr0. pose proof HI as HI0.
+  assert (F0 : s0 ~= s0) by apply eqf_refl.
+  destruct HS0 as [A1 A3 A4 A5 A6 A7 A8 A9 A10 A11 A12 A13].
   rewrite A5, A6. cbn [Nat.ltb Nat.leb].
-  assert (Hsb0 : Forall is_bd (sblock s0)) by (rewrite (eqf_get sblock _ _ (fun _ => eq_refl) F0); exact Hsb).
   assert (Hv : par s0 = false -> verse s0 = false /\ scope_verse s0 = false) by (intros _; split; [exact A10|apply scope_verse_bd; exact Hsb0]).
   destruct b as [n a l|t l].
   - rewrite A3, A7. cbn [assoc].
     assert (Ebf : bf_check n s0 = s0) by (unfold bf_check; rewrite A8; reflexivity).
     destruct Hb as [-> | [-> | [-> | [[-> ->] | [-> | ->]]]]].
     + change (control_builtin pb (R "Bm")) with (@None (cst -> cst)). change (builtin (R "Bm")) with (Some macro_bm). cbn [snd]. rewrite Ebf.
-      pose proof (macro_bm_eqf s0 A11 A1) as F1.
-      assert (F : after_handler (R "Bm") (macro_bm s0) ~= s) by (eapply eqf_trans; [apply after_handler_eqf|]; eapply eqf_trans; [exact F1|exact F0]).
+      pose proof (macro_bm_eqf s0 A11 A1 Hc0) as F1.
+      assert (F : after_handler (R "Bm") (macro_bm s0) ~= s0) by (eapply eqf_trans; [apply after_handler_eqf|exact F1]).
       split; [apply (Side_eqf _ _ F HS)|]. split; [rewrite (eqf_get sblock _ _ (fun _ => eq_refl) F); exact Hsb|]. split; [rewrite (eqf_get process _ _ (fun _ => eq_refl) F); exact Hpr|].
       intro Hp. pose proof (Inv_macro_bm s0 (HI0 Hp) A1 (eq_trans Hpr0 Hp) A3 Hv) as H.
       apply (Inv_regs (macro_bm s0)); [..|exact H]; unfold after_handler; destruct (elided (macro_bm s0)); reflexivity.
     + change (control_builtin pb (R "Em")) with (@None (cst -> cst)). change (builtin (R "Em")) with (Some macro_em). cbn [snd]. rewrite Ebf.
       destruct (macro_em_eqf s0 A11 A1) as [F1 _].
-      assert (F : after_handler (R "Em") (macro_em s0) ~= s) by (eapply eqf_trans; [apply after_handler_eqf|]; eapply eqf_trans; [exact F1|exact F0]).
+      assert (F : after_handler (R "Em") (macro_em s0) ~= s0) by (eapply eqf_trans; [apply after_handler_eqf|exact F1]).
       split; [apply (Side_eqf _ _ F HS)|]. split; [rewrite (eqf_get sblock _ _ (fun _ => eq_refl) F); exact Hsb|]. split; [rewrite (eqf_get process _ _ (fun _ => eq_refl) F); exact Hpr|].
       intro Hp. pose proof (Inv_macro_em s0 (HI0 Hp) A1 (eq_trans Hpr0 Hp) A3) as H.
       apply (Inv_regs (macro_em s0)); [..|exact H]; unfold after_handler; destruct (elided (macro_em s0)); reflexivity.
     + change (control_builtin pb (R "Sm")) with (@None (cst -> cst)). change (builtin (R "Sm")) with (Some macro_sm). cbn [snd]. rewrite Ebf.
       pose proof (macro_sm_eqf s0 A11 A1) as F1.
-      assert (F : after_handler (R "Sm") (macro_sm s0) ~= s) by (eapply eqf_trans; [apply after_handler_eqf|]; eapply eqf_trans; [exact F1|exact F0]).
+      assert (F : after_handler (R "Sm") (macro_sm s0) ~= s0) by (eapply eqf_trans; [apply after_handler_eqf|exact F1]).
       split; [apply (Side_eqf _ _ F HS)|]. split; [rewrite (eqf_get sblock _ _ (fun _ => eq_refl) F); exact Hsb|]. split; [rewrite (eqf_get process _ _ (fun _ => eq_refl) F); exact Hpr|].
       intro Hp. pose proof (Inv_macro_sm s0 (HI0 Hp) A1 (eq_trans Hpr0 Hp) A3 Hv) as H.
       apply (Inv_regs (macro_sm s0)); [..|exact H]; unfold after_handler; destruct (elided (macro_sm s0)); reflexivity.
     + change (control_builtin pb (R "P")) with (@None (cst -> cst)). change (builtin (R "P")) with (Some (macro_p pim)). cbn [snd]. rewrite Ebf.
       assert (Ha0 : args s0 = []) by reflexivity.
       pose proof (macro_p_plain_eqf pim s0 A11 A1 Ha0 A10) as F1.
-      assert (F : after_handler (R "P") (macro_p pim s0) ~= s) by (eapply eqf_trans; [apply after_handler_eqf|]; eapply eqf_trans; [exact F1|exact F0]).
+      assert (F : after_handler (R "P") (macro_p pim s0) ~= s0) by (eapply eqf_trans; [apply after_handler_eqf|exact F1]).
       split; [apply (Side_eqf _ _ F HS)|]. split; [rewrite (eqf_get sblock _ _ (fun _ => eq_refl) F); exact Hsb|]. split; [rewrite (eqf_get process _ _ (fun _ => eq_refl) F); exact Hpr|].
       intro Hp. pose proof (Inv_macro_p_plain pim s0 (HI0 Hp) A1 (eq_trans Hpr0 Hp) Ha0 A10 (scope_verse_bd _ Hsb0)) as H.
       apply (Inv_regs (macro_p pim s0)); [..|exact H]; unfold after_handler; destruct (elided (macro_p pim s0)); reflexivity.
     + change (control_builtin pb (R "Bd")) with (@None (cst -> cst)). change (builtin (R "Bd")) with (Some macro_bd). cbn [snd]. rewrite Ebf.
-      apply P_after_handler, macro_bd_P. apply (P_set_regs p (BMacro (R "Bd") a l) s). exact (conj HS (conj Hsb (conj Hpr HI))).
+      apply P_after_handler, macro_bd_P; [exact HP0|exact Hc0].
     + change (control_builtin pb (R "Ed")) with (@None (cst -> cst)). change (builtin (R "Ed")) with (Some macro_ed). cbn [snd]. rewrite Ebf.
-      apply P_after_handler, macro_ed_P. apply (P_set_regs p (BMacro (R "Ed") a l) s). exact (conj HS (conj Hsb (conj Hpr HI))).
+      apply P_after_handler, macro_ed_P. exact HP0.
   - cbn [snd]. unfold text_block.
     pose proof (process_text_eqf s0 A4 A11 A1) as F1.
     assert (Ebf : bf (process_text s0) = None) by (rewrite (eqf_get bf _ _ (fun _ => eq_refl) F1); exact A8). rewrite Ebf.
-    assert (F : process_text s0 <| prev := [] |> ~= s) by (eapply eqf_trans; [apply set_prev_eqf|]; eapply eqf_trans; [exact F1|exact F0]).
+    assert (F : process_text s0 <| prev := [] |> ~= s0) by (eapply eqf_trans; [apply set_prev_eqf|exact F1]).
     split; [apply (Side_eqf _ _ F HS)|]. split; [rewrite (eqf_get sblock _ _ (fun _ => eq_refl) F); exact Hsb|]. split; [rewrite (eqf_get process _ _ (fun _ => eq_refl) F); exact Hpr|].
     intro Hp. pose proof (Inv_process_text s0 (HI0 Hp) A1 (eq_trans Hpr0 Hp) A4 (fun _ => A10)) as H.
     apply (Inv_regs (process_text s0)); [..|exact H]; reflexivity.
 Qed.
 
-Lemma P_out_of_fuel p cs : P p (snd cs) -> P p (snd (out_of_fuel cs)).
-Proof. intros ([A1 A3 A4 A5 A6 A7 A8 A9 A10 A11 A12] & Hsb & Hpr & HI). unfold out_of_fuel. cbn [snd]. split; [split; assumption|]. split; [exact Hsb|]. split; [exact Hpr|].
-  intro Hp. destruct (HI Hp) as [X Y Z]. split; assumption. Qed.
-
-Theorem frag_invariant p : forall fuel bs cs, Forall in_frag bs -> P p (snd cs) -> P p (snd (run_blocks fuel bs cs)).
-Proof. induction fuel as [|f IH]; intros bs cs Hbs HP; [apply P_out_of_fuel; exact HP|].
-  cbn [run_blocks]. revert cs HP. induction Hbs as [|b rest Hb Hrest IHb]; intros cs HP; [exact HP|].
+Theorem frag_invariant p : forall fuel bs cs, Forall in_frag bs -> P p (snd cs) -> P p (snd (run_blocks (S fuel) bs cs)).
+Proof. intros f bs cs Hbs. cbn [run_blocks]. revert cs. induction Hbs as [|b rest Hb Hrest IHb]; intros cs HP; [exact HP|].
   cbn [walk]. destruct cs as [c s]. pose proof (step_frag (run_blocks f) p b c s Hb HP) as H1.
   destruct (panicked (snd (step (run_blocks f) b (c, s)))); [exact H1|]. apply IHb. exact H1. Qed.
 
@@ -661,7 +674,9 @@ Proof. intros Hb Hp. unfold elems, view, elems_v. rewrite Hb, Hp. reflexivity. Q
 Lemma eof_sweep_P s : P true s -> let s' := eof_sweep s in Side s' /\ Inv s' /\ par s' = false /\ sblock s' = [].
 Proof. intros HP. cbv zeta. unfold eof_sweep.
   set (s3 := s <| has_cur := false |> <| macro := R "End Of File" |>).
-  assert (HP3 : P true s3) by (apply (P_same true _ s); [destruct s; reflexivity|reflexivity|reflexivity|reflexivity|exact HP]).
+  assert (HP3 : P true s3).
+  { destruct HP as ([A1 A3 A4 A5 A6 A7 A8 A9 A10 A11 A12 A13] & Hsb & Hpr & HI). split; [split; assumption|]. split; [exact Hsb|]. split; [exact Hpr|].
+    intro Hp. apply (Inv_regs s); try reflexivity. exact (HI Hp). }
   destruct (close_unclosed_inline_P s3 HP3) as [HPa Hsia].
   destruct (end_par_P _ HPa Hsia) as (HPb & Hpb & _). cbv zeta in HPb, Hpb.
   set (sb := end_par PNormal (close_unclosed_inline s3)) in *. clearbody sb.
@@ -689,20 +704,20 @@ Proof. intro HS.
   split; [reflexivity|reflexivity|exact Hf]. Qed.
 
 Theorem C02_blocks_balanced fuel wd main bs : Forall in_frag bs ->
-  let s := snd (compile fuel (R "xhtml") 0 wd main bs) in
-  panicked s = None ->
+  let s := snd (compile (S fuel) (R "xhtml") 0 wd main bs) in
+  panicked s = None /\
   run (flat (wout s)) (Txt, []) = (Txt, []) /\ In (curfile s, flat (wout s)) (files s).
 Proof. intros Hbs. unfold compile.
   pose proof (frag_invariant false fuel bs (start_ctl wd main, start_st (R "xhtml") 0 wd main) Hbs (P_start wd main)) as H1.
-  destruct (run_blocks fuel bs (start_ctl wd main, start_st (R "xhtml") 0 wd main)) as [c1 s1]. cbn [snd] in H1.
-  destruct (panicked s1) eqn:Ep1; [cbn [snd]; intro H; rewrite Ep1 in H; discriminate|].
+  destruct (run_blocks (S fuel) bs (start_ctl wd main, start_st (R "xhtml") 0 wd main)) as [c1 s1]. cbn [snd] in H1.
+  rewrite (sd_np _ (proj1 H1)).
   pose proof (frag_invariant true fuel bs (set_budget 0 false c1, exp_reset (reset s1)) Hbs (P_reset s1 (proj1 H1))) as H2.
-  destruct (run_blocks fuel bs (set_budget 0 false c1, exp_reset (reset s1))) as [c2 s2]. cbn [snd] in H2.
-  destruct (panicked s2) eqn:Ep2; [cbn [snd]; intro H; rewrite Ep2 in H; discriminate|].
+  destruct (run_blocks (S fuel) bs (set_budget 0 false c1, exp_reset (reset s1))) as [c2 s2]. cbn [snd] in H2.
+  rewrite (sd_np _ (proj1 H2)).
   destruct (eof_sweep_P s2 H2) as (HS & HI & Hp & Hsb). cbv zeta in HS, HI, Hp, Hsb. set (s7 := eof_sweep s2) in *. clearbody s7.
   assert (Epost : exp_post s7 = s7) by (unfold exp_post; rewrite (sd_fmt _ HS), (sd_mode _ HS); reflexivity). rewrite Epost.
-  cbn [snd]. intros _. change (wout (s7 <| files ::= fun l => l ++ [(curfile s7, flat (wout s7))] |>)) with (wout s7).
-  split.
+  cbn [snd]. change (wout (s7 <| files ::= fun l => l ++ [(curfile s7, flat (wout s7))] |>)) with (wout s7).
+  split; [exact (sd_np _ HS)|]. split.
   - destruct HI as [A B C]. unfold out in A. rewrite (B Hp), flat_nil, app_nil_r, (elems_closed _ Hsb Hp) in A. exact A.
   - change (files (s7 <| files ::= fun l => l ++ [(curfile s7, flat (wout s7))] |>)) with (files s7 ++ [(curfile s7, flat (wout s7))]).
     apply in_or_app. right. left. reflexivity.
